@@ -1,6 +1,6 @@
 #!/bin/bash
 # usage: seed_confirm.sh <worktree> <seed-id> <property>   (confirms a seeded change and archives it under /verif/seeded/<seed-id>)
-wt=$1; sid=$2; pid=$3
+wt=$1; sid=$2; pid=$3; export OMP_NUM_THREADS=2
 out=/verif/seeded/$sid; mkdir -p $out
 cd $wt || exit 2
 git diff -- scikit_tt > $out/patch.diff
